@@ -6,7 +6,7 @@ cd /repo && git diff --quiet || { echo "/repo is dirty"; exit 2; }
 rm -rf /tmp/evidence_keep && cp -r /verif/evidence /tmp/evidence_keep
 git -C /repo apply /verif/seeded/$id/patch.diff || { echo "patch does not apply"; exit 2; }
 for p in "$@"; do
-  out=$(cd /verif && timeout 1200 ./check $p --quick 2>&1 | grep -E "VIOLATION|KNOWN|Traceback|Error" | head -3 | tr '\n' ' ')
+  out=$(cd /verif && timeout 1200 ./check $p --quick 2>&1 | grep -E "VIOLATION|Traceback|Error" | head -3 | tr '\n' ' ')
   echo "$id $p => ${out:-PASS(no alarm)}"
   echo "$p => ${out:-PASS(no alarm)}" >> /verif/seeded/$id/detection.txt
 done
